@@ -334,6 +334,16 @@ impl Clone for CF {
 // ---------------------------------------------------------------------------------------------
 #[derive(Clone, Debug, PartialEq, Eq)]
 pub struct Tm(pub String);
+impl Default for Tm {
+    fn default() -> Self {
+        Tm("default()".to_string())
+    }
+}
+impl Default for Tc {
+    fn default() -> Self {
+        tc("default()")
+    }
+}
 pub fn tm(s: &str) -> Tm {
     Tm(s.to_string())
 }
@@ -650,3 +660,23 @@ impl Into<Pr> for SrcI {
     }
 }
 pub const SRCI8: SrcI = SrcI(8);
+
+/// QO(dim, val): totally ordered (`Ord`: by dim, then val) but only partially ordered through `PartialOrd`
+/// (values of different dimensions are incomparable) - the two orders of a field type need not agree
+#[derive(Clone, Copy, Debug, PartialEq, Eq, Hash)]
+pub struct QO(pub u8, pub u8);
+impl Ord for QO {
+    fn cmp(&self, o: &QO) -> Ordering {
+        (self.0, self.1).cmp(&(o.0, o.1))
+    }
+}
+#[allow(clippy::non_canonical_partial_ord_impl)]
+impl PartialOrd for QO {
+    fn partial_cmp(&self, o: &QO) -> Option<Ordering> {
+        if self.0 != o.0 {
+            None
+        } else {
+            Some(self.1.cmp(&o.1))
+        }
+    }
+}
